@@ -109,17 +109,21 @@ class MultiObjectiveProblem(Problem[P]):
         self.n_objectives = len(self.minimize) if isinstance(self.minimize, list) else None
         self.initialized = not isinstance(self.minimize, bool) and self.n_objectives is not None
 
-        def default_single_objective_merge(d: Any) -> float:
+        def default_single_objective_merge(components: list[float]) -> float:
             if isinstance(self.minimize, list):
-                return sum(m and -fit or +fit for (fit, m) in zip(fitness_function(d), self.minimize))
+                return sum(m and -fit or +fit for (fit, m) in zip(components, self.minimize))
             elif isinstance(self.minimize, bool):
-                return sum(-fit if self.minimize else fit for fit in fitness_function(d))
+                return sum(-fit if self.minimize else fit for fit in components)
             else:
                 assert False, "minimize must be either a list[bool] or a bool"
 
+        if best_individual_criteria_function is None and aggregate_fitness is None:
+            # merge the components that were already computed, instead of calling the fitness function again
+            aggregate_fitness = default_single_objective_merge
+
         self.ff = {
             "ff": fitness_function,
-            "best_individual": best_individual_criteria_function or default_single_objective_merge,
+            "best_individual": best_individual_criteria_function,
             "aggregate_fitness": aggregate_fitness,
         }
 
